@@ -303,16 +303,60 @@ def run(ctx):
     ctx.traces += len(acc)
     rejected = [i for i in range(len(ordered)) if i not in acc]
 
-    # ---- 7. binding canaries on accepted traces (must be rejected)
+    # ---- 7. reproduce rejections (re-run the same scenario alone, re-validate alone)
+    seen_sigs = {}
+    for i in sorted(rejected, key=lambda i: ordered[i]["mode"] != "replay")[:10]:   # replayed TLC schedules first; bounded work
+        r = ordered[i]
+        ok0, why0 = diagnose(ctx, r, "rej%d" % i)
+        if ok0:
+            raise vlib.Machinery("scenario %d rejected in the batch but accepted alone" % r["sc"])
+        if seen_sigs.get(why0, 0) >= 2:
+            continue
+        seen_sigs[why0] = seen_sigs.get(why0, 0) + 1
+        repro = 0
+        as_observed = dict(r["scen"], id=1, mode="replay", hist=observed_schedule(r))
+        attempts = [as_observed] * 3 + [dict(r["scen"], id=1)] * 3
+        for k, sc_again in enumerate(attempts):
+            again, races2 = run_harness(ctx, [sc_again], "re%d_%d" % (i, k), par=1)
+            ok, why = diagnose(ctx, again[0], "re%d_%d" % (i, k))
+            if not ok:
+                repro += 1
+                why0 = why
+                break
+        if not repro:
+            raise vlib.Machinery("rejection of scenario %d (%s, first unexplained event %s) did not reproduce in 6 re-runs (3 along the observed order)" % (r["sc"], r["mode"], why0))
+        ctx.finding("reject:%s:%s" % (r["cfg"]["peer"], why0),
+                    "recorded execution is not a behaviour of UConnConc; first unexplained event: %s (mode %s)" % (why0, r["mode"]),
+                    {"scenario": r["scen"], "events": flat_events(r)})
+    for j in unexplained[:4]:
+        r = bare[j]
+        o = obs_all[j]
+        repro = False
+        for k in range(8):
+            again, _ = run_harness(ctx, [dict(r["scen"], id=1)], "reb%d_%d" % (j, k), par=1)
+            again[0]["scen"] = dict(r["scen"], id=1)
+            o2 = summary(again[0])
+            res = run_mc(ctx, [bykey[cfg_key(o["cfg"])]], [o2], "reb%d_%d" % (j, k), workers=4)
+            if not res.tagged("HIT"):
+                repro, o = True, o2
+                break
+        if not repro:
+            raise vlib.Machinery("unexplained hook-free outcome of scenario %d did not reproduce in 8 re-runs: %s" % (r["sc"], json.dumps(o)[:600]))
+        cls = {p: ("nil" if e["isnil"] else "ctx" if e["ctxerr"] and e["err"] == e["ctxerr"] else "err") for p, e in o["ret"].items() if e["err"] != "absent"}
+        ctx.finding("outcome:%s:%s" % (o["cfg"]["peer"], "hang" if o["hung"] else "inconsistent"),
+                    "outcome of a hook-free run is not a reachable outcome of UConnConc: rets=%s complete=%s closed=%s tmax=%dms hung=%s" % (cls, o["complete"], o["closed"], o["tmax"], o["hung"]),
+                    {"scenario": r["scen"], "outcome": o})
+
+    # ---- 8. binding canaries on accepted traces (must be rejected)
     good = [ordered[i] for i in sorted(acc)]
     canaries = make_canaries(good)
-    if len(canaries) < 4:
+    if len(canaries) < 4 and not ctx.findings:
         raise vlib.Machinery("could not build the binding canaries (%d)" % len(canaries))
     cacc, _ = validate(ctx, [c for (_, c) in canaries], "canary", 2)
     if cacc:
         raise vlib.Machinery("binding canary accepted: %s" % [canaries[i][0] for i in sorted(cacc)])
 
-    # ---- 8. vacuity of the validation: the interesting behaviours were really observed and accepted
+    # ---- 9. vacuity of the validation: the interesting behaviours were really observed and accepted
     seen = set()
     for r in good:
         for e in flat_events(r):
@@ -329,46 +373,8 @@ def run(ctx):
         if r["cfg"]["peer"] == "stall":
             seen.add("stall")
     want = {"ret_nil", "ret_ctx", "ret_err", "intr_ctx", "intr_done", "close_by_intr", "close_by_closer", "latecancel", "post_fn", "stall"}
-    if want - seen:
+    if want - seen and not ctx.findings:
         raise vlib.Machinery("vacuity: never observed in an accepted trace: %s" % sorted(want - seen))
-
-    # ---- 9. reproduce rejections (re-run the same scenario alone, re-validate alone)
-    for i in rejected:
-        r = ordered[i]
-        ok0, why0 = diagnose(ctx, r, "rej%d" % i)
-        if ok0:
-            raise vlib.Machinery("scenario %d rejected in the batch but accepted alone" % r["sc"])
-        repro = 0
-        for k in range(3):
-            again, races2 = run_harness(ctx, [dict(r["scen"], id=1)], "re%d_%d" % (i, k), par=1)
-            ok, why = diagnose(ctx, again[0], "re%d_%d" % (i, k))
-            if not ok:
-                repro += 1
-                why0 = why
-                break
-        if not repro:
-            raise vlib.Machinery("rejection of scenario %d (%s, first unexplained event %s) did not reproduce in 3 re-runs" % (r["sc"], r["mode"], why0))
-        ctx.finding("reject:%s:%s" % (r["cfg"]["peer"], why0),
-                    "recorded execution is not a behaviour of UConnConc; first unexplained event: %s (mode %s)" % (why0, r["mode"]),
-                    {"scenario": r["scen"], "events": flat_events(r)})
-    for j in unexplained:
-        r = bare[j]
-        o = obs_all[j]
-        repro = False
-        for k in range(3):
-            again, _ = run_harness(ctx, [dict(r["scen"], id=1)], "reb%d_%d" % (j, k), par=1)
-            again[0]["scen"] = dict(r["scen"], id=1)
-            o2 = summary(again[0])
-            res = run_mc(ctx, [bykey[cfg_key(o["cfg"])]], [o2], "reb%d_%d" % (j, k), workers=4)
-            if not res.tagged("HIT"):
-                repro, o = True, o2
-                break
-        if not repro:
-            raise vlib.Machinery("unexplained hook-free outcome of scenario %d did not reproduce in 3 re-runs: %s" % (r["sc"], json.dumps(o)[:600]))
-        cls = {p: ("nil" if e["isnil"] else "ctx" if e["ctxerr"] and e["err"] == e["ctxerr"] else "err") for p, e in o["ret"].items() if e["err"] != "absent"}
-        ctx.finding("outcome:%s:%s" % (o["cfg"]["peer"], "hang" if o["hung"] else "inconsistent"),
-                    "outcome of a hook-free run is not a reachable outcome of UConnConc: rets=%s complete=%s closed=%s tmax=%dms hung=%s" % (cls, o["complete"], o["closed"], o["tmax"], o["hung"]),
-                    {"scenario": r["scen"], "outcome": o})
 
     # ---- 10. race reports (the one judgement not made by TLC)
     for where, x in findings_races:
@@ -406,6 +412,25 @@ def run(ctx):
         "the run-wide lock that orders the gated logs adds happens-before edges, so data races are looked for in the hook-free runs",
         "Go race detector: only races on executed interleavings are reported",
     ]
+
+
+def observed_schedule(r):
+    """The order in which things were observed to happen, as a schedule for the gate scheduler (used to
+    reproduce a rejected run)."""
+    hist, dl, waited = [], r["cfg"]["deadline"], False
+    for e in flat_events(r):
+        if e["t"] >= dl and not waited:
+            hist.append(dict(k="timeout", p="env", g="", i=False))
+            waited = True
+        if e["ev"] == "call":
+            hist.append(dict(k="cancel", p=e["tgt"], g="", i=False) if e["p"] == "canc" else dict(k="call", p=e["p"], g="", i=False))
+        elif e["ev"] == "peer":
+            hist.append(dict(k="peer", p="peer", g="", i=False))
+        elif e["ev"] in ("arrive", "pass"):
+            hist.append(dict(k=e["ev"], p=e["p"], g=e["g"], i=e["i"]))
+        elif e["ev"] == "ret" and e["p"] != "canc":
+            hist.append(dict(k="ret", p=e["p"], g="", i=False))
+    return hist
 
 
 def make_canaries(good):
